@@ -173,6 +173,9 @@ impl Prop for C01 {
     fn id(&self) -> &'static str {
         "C01"
     }
+    fn fuzz_target(&self) -> Option<&'static str> {
+        Some("fz_choices")
+    }
     fn stream_len(&self, tier: Tier) -> usize {
         tier.pick(700, 900)
     }
